@@ -20,14 +20,32 @@ func distTol(d float64) float64 { return 1e-9 * (1 + math.Abs(d)) }
 // (Organism.Species, position in Species.Organisms) and judged against the rule using the reference distance;
 // decisions within tolerance of the threshold or of a second-best candidate are accepted either way and counted.
 func replaySpeciation(arrivals []*genetics.Organism, thr, exc, dis, mut float64, rec *Rec) error {
+	return replaySpeciationEvents(arrivals, nil, false, thr, exc, dis, mut, rec)
+}
+
+// replaySpeciationEvents: removedBefore[i] lists species that left the population before arrival i (extinction);
+// exact = every distance is a sum of a few dyadic rationals (integer-valued coefficients, no mutation term), hence
+// computed without rounding in any order: decisions are then judged without tolerance, also exactly at the threshold.
+func replaySpeciationEvents(arrivals []*genetics.Organism, removedBefore map[int][]*genetics.Species, exact bool, thr, exc, dis, mut float64, rec *Rec) error {
 	type modelSpecies struct {
-		sp  *genetics.Species
-		rep []innovMut
+		sp   *genetics.Species
+		rep  []innovMut
+		gone bool
+	}
+	distTol := distTol
+	if exact {
+		distTol = func(float64) float64 { return 0 }
 	}
 	var species []modelSpecies
 	known := map[*genetics.Species]int{}
 	lastId := math.MinInt64
 	for i, o := range arrivals {
+		for _, dead := range removedBefore[i] {
+			if k, ok := known[dead]; ok {
+				species[k].gone = true
+				rec.Class("species removed between arrivals")
+			}
+		}
 		sp := o.Species
 		if sp == nil {
 			return fmt.Errorf("arrival %d was assigned to no species", i)
@@ -38,8 +56,15 @@ func replaySpeciation(arrivals []*genetics.Organism, thr, exc, dis, mut float64,
 		minPossible := math.Inf(1)
 		firstCompatible := -1
 		for k, ms := range species {
+			if ms.gone {
+				ds[k] = math.Inf(1)
+				continue
+			}
 			d := RefCompat(genes, ms.rep, exc, dis, mut)
 			ds[k] = d
+			if exact && d == thr {
+				rec.Class("distance exactly equal to the threshold")
+			}
 			if d < thr-distTol(d) {
 				definitely++
 				if firstCompatible < 0 {
@@ -52,6 +77,9 @@ func replaySpeciation(arrivals []*genetics.Organism, thr, exc, dis, mut float64,
 			}
 		}
 		idx, existing := known[sp]
+		if existing && species[idx].gone {
+			return fmt.Errorf("arrival %d was put into species %d, which had left the population", i, sp.Id)
+		}
 		if !existing {
 			// the organism founded a species: nobody may have been (robustly) compatible
 			if len(sp.Organisms) == 0 || sp.Organisms[0] != o {
@@ -66,7 +94,7 @@ func replaySpeciation(arrivals []*genetics.Organism, thr, exc, dis, mut float64,
 			lastId = sp.Id
 			known[sp] = len(species)
 			species = append(species, modelSpecies{sp: sp, rep: genes})
-			if possibly > 0 {
+			if possibly > 0 && !exact {
 				rec.Class("ambiguous decision accepted (distance within tolerance of the threshold)")
 			}
 			if len(species) > 1 {
@@ -103,6 +131,8 @@ type C08Direct struct {
 	Disjoint float64      `json:"disjoint_coeff"`
 	Mutdiff  float64      `json:"mutdiff_coeff"`
 	Fast     bool         `json:"fast"`
+	Exact    bool         `json:"exact"`            // dyadic coefficients, no mutation term, threshold equal to an observed distance
+	Remove   []int        `json:"remove,omitempty"` // per batch: species (index modulo the living ones) that goes extinct before the batch, -1 none
 }
 
 func GenC08Direct() *rapid.Generator[C08Direct] {
@@ -116,6 +146,11 @@ func GenC08Direct() *rapid.Generator[C08Direct] {
 				panic("generator bug: " + err.Error())
 			}
 		}
+		if c.Exact = rapid.IntRange(0, 3).Draw(t, "exact") == 0; c.Exact {
+			c.Excess = rapid.SampledFrom([]float64{0.5, 1, 2, 3}).Draw(t, "excess exact")
+			c.Disjoint = rapid.SampledFrom([]float64{0.5, 1, 2, 3}).Draw(t, "disjoint exact")
+			c.Mutdiff = 0
+		}
 		m := rapid.IntRange(2, 2*n).Draw(t, "arrivals")
 		for i := 0; i < m; i++ {
 			c.Order = append(c.Order, rapid.IntRange(0, n-1).Draw(t, "arrival"))
@@ -125,6 +160,11 @@ func GenC08Direct() *rapid.Generator[C08Direct] {
 			b := rapid.IntRange(1, left).Draw(t, "batch")
 			c.Batches = append(c.Batches, b)
 			left -= b
+			r := -1
+			if len(c.Batches) > 1 && rapid.IntRange(0, 2).Draw(t, "extinction") == 0 {
+				r = rapid.IntRange(0, 50).Draw(t, "extinct species")
+			}
+			c.Remove = append(c.Remove, r)
 		}
 		// threshold between two adjacent values of the observed pairwise distances (or outside all of them)
 		var ds []float64
@@ -144,6 +184,9 @@ func GenC08Direct() *rapid.Generator[C08Direct] {
 			c.Thr = ds[k] + 1
 		default:
 			c.Thr = (ds[k] + ds[k+1]) / 2
+		}
+		if c.Exact && k >= 0 {
+			c.Thr = ds[k] // decisions exactly at the threshold
 		}
 		if c.Thr <= 0 {
 			c.Thr = 1e-3
@@ -165,7 +208,29 @@ func CheckC08Direct(c C08Direct, rec *Rec) error {
 		arrivals = append(arrivals, org)
 	}
 	at := 0
-	for _, b := range c.Batches {
+	removed := map[int][]*genetics.Species{}
+	gone := 0
+	for bi, b := range c.Batches {
+		if bi < len(c.Remove) && c.Remove[bi] >= 0 && len(pop.Species) >= 2 {
+			// a species goes extinct: it leaves the species list and its organisms leave the population
+			dead := pop.Species[c.Remove[bi]%len(pop.Species)]
+			var keepS []*genetics.Species
+			for _, sp := range pop.Species {
+				if sp != dead {
+					keepS = append(keepS, sp)
+				}
+			}
+			var keepO []*genetics.Organism
+			for _, o := range pop.Organisms {
+				if o.Species != dead {
+					keepO = append(keepO, o)
+				} else {
+					gone++
+				}
+			}
+			pop.Species, pop.Organisms = keepS, keepO
+			removed[at] = append(removed[at], dead)
+		}
 		batch := arrivals[at : at+b]
 		at += b
 		pop.VerifAddOrganisms(batch)
@@ -181,13 +246,16 @@ func CheckC08Direct(c C08Direct, rec *Rec) error {
 	if len(c.Batches) > 1 {
 		rec.Class("several batches")
 	}
-	if err := replaySpeciation(arrivals, c.Thr, c.Excess, c.Disjoint, c.Mutdiff, rec); err != nil {
+	if c.Exact {
+		rec.Class("exact distances")
+	}
+	if err := replaySpeciationEvents(arrivals, removed, c.Exact, c.Thr, c.Excess, c.Disjoint, c.Mutdiff, rec); err != nil {
 		return err
 	}
 	if len(pop.Species) > 1 {
 		rec.Class("several species")
 	}
-	return checkPartition(pop, len(arrivals))
+	return checkPartition(pop, len(arrivals)-gone)
 }
 
 func TestC08Direct(t *testing.T) {
@@ -199,9 +267,13 @@ func TestC08Direct(t *testing.T) {
 func CheckC08Epochs(sc Scenario, rec *Rec) error {
 	var opts *neat.Options
 	reps := map[*genetics.Species][]innovMut{}
+	everSeen := map[int]bool{}
 	return runScenario(sc, epochHooks{
 		built: func(pop *genetics.Population, o *neat.Options) error {
 			opts = o
+			for _, sp := range pop.Species {
+				everSeen[sp.Id] = true
+			}
 			// arrival order of a constructor is the order of pop.Organisms, all species are new
 			return replaySpeciation(pop.Organisms, o.CompatThreshold, o.ExcessCoeff, o.DisjointCoeff, o.MutdiffCoeff, rec)
 		},
@@ -221,6 +293,31 @@ func CheckC08Epochs(sc Scenario, rec *Rec) error {
 		},
 		after: func(e int, pop *genetics.Population) error {
 			thr := opts.CompatThreshold
+			// a species founded in this turnover carries a fresh id
+			living := map[int]bool{}
+			for _, sp := range pop.Species {
+				if living[sp.Id] {
+					return fmt.Errorf("two living species carry the id %d", sp.Id)
+				}
+				living[sp.Id] = true
+				if _, survived := reps[sp]; !survived && everSeen[sp.Id] {
+					return fmt.Errorf("the species founded in this turnover received the id %d, which was issued before", sp.Id)
+				}
+			}
+			for id := range living {
+				everSeen[id] = true
+			}
+			if len(reps) > 0 {
+				extinct := 0
+				for sp := range reps {
+					if !living[sp.Id] {
+						extinct++
+					}
+				}
+				if extinct > 0 && len(living) > len(reps)-extinct {
+					rec.Class("species founded in a turnover in which another went extinct")
+				}
+			}
 			for i, o := range pop.Organisms {
 				sp := o.Species
 				rep, survived := reps[sp]
